@@ -80,6 +80,40 @@ FrChannelsLens(x)  == [k \in 1..(Len(x) + 1) |-> Len(x) + 1 - k]           \* Ex
 FrChannel(x, i)    == IF i >= 0 /\ i < Len(x) THEN RSome(x[i + 1]) ELSE RNone     \* i 0-based; out of range -> None
 FrSetChannel(x, i, v) == IF i >= 0 /\ i < Len(x) THEN [x EXCEPT ![i + 1] = v] ELSE x
 
+\* The channel iterators (channels() by value, channels_ref(), channels_mut()) as ITERATORS: an iterator IS the
+\* sequence `rem` of the items it has yet to yield -- a fresh one holds channels 0..N-1 in order, each next() takes
+\* the head, each next_back() (channels_ref / channels_mut only) the last.  Everything else std's Iterator offers is
+\* positional RELATIVE TO `rem`: nth(j) yields rem[j] (0-based) and leaves what follows it, skip / step_by / last /
+\* count / rev / nth_back accordingly.  Options travel as sequences of length 0 or 1.  (MC_Frame's IterLaws derive
+\* every one of these from next / next_back alone.)
+ItNext(rem)     == IF rem = << >> THEN [items |-> << >>, rem |-> << >>] ELSE [items |-> << Head(rem) >>, rem |-> Tail(rem)]
+ItNextBack(rem) == IF rem = << >> THEN [items |-> << >>, rem |-> << >>]
+                   ELSE [items |-> << rem[Len(rem)] >>, rem |-> SubSeq(rem, 1, Len(rem) - 1)]
+ItFront(rem, k) ==      \* k calls of next(): what they returned as Some, what is left
+  LET m == MinN(k, Len(rem)) IN [got |-> SubSeq(rem, 1, m), rem |-> SubSeq(rem, m + 1, Len(rem))]
+ItBack(rem, k) ==       \* k calls of next_back()
+  LET l == Len(rem) m == MinN(k, l) IN [got |-> [c \in 1..m |-> rem[l + 1 - c]], rem |-> SubSeq(rem, 1, l - m)]
+ItNth(rem, j)     == IF j < Len(rem) THEN [items |-> << rem[j + 1] >>, rem |-> SubSeq(rem, j + 2, Len(rem))]
+                     ELSE [items |-> << >>, rem |-> << >>]                      \* too short: None, and drained
+ItNthBack(rem, j) == IF j < Len(rem) THEN [items |-> << rem[Len(rem) - j] >>, rem |-> SubSeq(rem, 1, Len(rem) - j - 1)]
+                     ELSE [items |-> << >>, rem |-> << >>]
+ItSkip(rem, a)    == SubSeq(rem, a + 1, Len(rem))                               \* skip(a).collect()
+ItStepBy(rem, b)  == [c \in 1..((Len(rem) + b - 1) \div b) |-> rem[(c - 1) * b + 1]]   \* step_by(b).collect(), b >= 1
+ItLast(rem)       == IF rem = << >> THEN << >> ELSE << rem[Len(rem)] >>
+ItRev(rem)        == [c \in 1..Len(rem) |-> rem[Len(rem) + 1 - c]]
+ItFwdOps  == {"nth", "skip", "step_by", "last", "count", "collect"}
+ItBackOps == {"rev", "nth_back"}
+\* one call: the items it yields; for the calls that borrow the iterator (`alive`), what is left in it; count()'s answer
+ItOp(op, j, rem) ==
+  CASE op = "nth"      -> [items |-> ItNth(rem, j).items,     rem |-> ItNth(rem, j).rem,     alive |-> TRUE,  cnt |-> -1]
+    [] op = "nth_back" -> [items |-> ItNthBack(rem, j).items, rem |-> ItNthBack(rem, j).rem, alive |-> TRUE,  cnt |-> -1]
+    [] op = "skip"     -> [items |-> ItSkip(rem, j),          rem |-> << >>,                 alive |-> FALSE, cnt |-> -1]
+    [] op = "step_by"  -> [items |-> ItStepBy(rem, j),        rem |-> << >>,                 alive |-> FALSE, cnt |-> -1]
+    [] op = "last"     -> [items |-> ItLast(rem),             rem |-> << >>,                 alive |-> FALSE, cnt |-> -1]
+    [] op = "count"    -> [items |-> << >>,                   rem |-> << >>,                 alive |-> FALSE, cnt |-> Len(rem)]
+    [] op = "collect"  -> [items |-> rem,                     rem |-> << >>,                 alive |-> FALSE, cnt |-> -1]
+    [] op = "rev"      -> [items |-> ItRev(rem),              rem |-> << >>,                 alive |-> FALSE, cnt |-> -1]
+
 ---------------------------------------------------------------------------
 (* value sets used by MC_Frame / stimuli: boundary structured, per format *)
 SOne == SFromInt(1)
